@@ -315,10 +315,48 @@ Definition keep_green_get_commit_status : bool := %s.
        coq_bool(f['hit_gh']), coq_bool(f['hit_bb']), coq_bool(f['keep']))
 
 
+def probe_inflight():
+    """Observed on the running code (no source reading): does an operation that waited for the host keep a
+    SUCCESSFUL entry another operation recorded meanwhile?  One probe per kind of waiting operation."""
+    red_gh = op_pg('c0', 'github_actions', [('pre-merge', 'FAILED')], 'FAILED')
+    green_gh = op_pg('c0', 'github_actions', [('pre-merge', 'SUCCESSFUL')], 'SUCCESSFUL')
+    probes = {
+        'suite': ('gh', ('EU', 'c0', RUNS_OF['INPROGRESS'], 'INPROGRESS'), green_gh, red_gh),
+        'poll_gh': ('gh', op_pg('c0', 'pre-merge', [('pre-merge', 'INPROGRESS')], 'FAILED'),
+                    op_es('c0', 'pre-merge', 'SUCCESSFUL'), op_pg('c0', 'pre-merge', [('pre-merge', 'FAILED')], 'FAILED')),
+        'poll_bb': ('bb', ('PB', 'c0', 'pre-merge', 'INPROGRESS'), ('EB', 'c0', 'pre-merge', 'SUCCESSFUL'),
+                    ('PB', 'c0', 'pre-merge', 'FAILED')),
+    }
+    res = {}
+    try:
+        for name, (host, outer, inner, later) in probes.items():
+            w = world(host, 'fast')
+            w.reset(2)
+            w.during, w.during_answer = inner, None
+            w.apply(outer)
+            if w.during is not None:
+                raise ValueError('in-flight probe %s: the operation did not ask the host' % name)
+            res[name] = w.apply(later) == 'SUCCESSFUL'
+    finally:
+        cur = _WORLDS.get('current')
+        if cur is not None:
+            cur.unpatch()
+            _WORLDS.pop('current', None)
+    return res
+
+
 def gen_facts(ctx):
     f = read_facts()
     ctx.extra['facts'] = {k: f[k] for k in ('g_status', 'g_suite', 'g_bb', 'hit_gh', 'hit_bb', 'keep', 'size')}
-    return {'Generated/Facts_C17.v': facts_text(f)}
+    g = probe_inflight()
+    ctx.extra['facts_inflight'] = g
+    text = facts_text(f) + '''(* observed on the running code: an operation that waited for the host keeps a SUCCESSFUL entry recorded
+   meanwhile (check_suite handler / GitHub poll / Bitbucket poll) - harness/props/c17.py: probe_inflight *)
+Definition inflight_guard_check_suite : bool := %s.
+Definition inflight_guard_poll_github : bool := %s.
+Definition inflight_guard_poll_bitbucket : bool := %s.
+''' % (coq_bool(g['suite']), coq_bool(g['poll_gh']), coq_bool(g['poll_bb']))
+    return {'Generated/Facts_C17.v': text}
 
 
 ASSUMPTIONS = [
